@@ -186,7 +186,7 @@ func (c *Ctx) heapNameArr(elem types.Type) (string, string) {
 }
 
 func globalName(g *ssa.Global) string {
-	return "G_" + sanitize(g.Pkg.Pkg.Name()+"."+g.Name())
+	return "G_" + sanitize(g.Pkg.Pkg.Path()+"."+g.Name())
 }
 
 func heapStruct(p *Path) (*types.Struct, bool) {
